@@ -117,6 +117,10 @@ class ForeignXmlGen:
                 bmap["bp%d" % i] = "http://bundle%d.example/" % i
                 bns["bp%d" % i] = bmap["bp%d" % i]
                 bp.append("bp%d" % i)
+            if r.random() < 0.3:
+                # the bundle re-binds a prefix of the document to another namespace
+                bmap["tr"] = "http://bundle%d.example/tr#" % i
+                bns["tr"] = bmap["tr"]
             bdefault = default
             if r.random() < 0.25:
                 bmap[None] = "http://bundle-default.example/"
